@@ -1229,20 +1229,25 @@ pub fn wire_run_case(case: &Value) -> crate::netrun::CaseResult {
     let mut res = CaseResult::ok(format!("wire:{}", case["route"].as_str().unwrap_or("")));
     let cfgs = wire_cfgs(case["thorough"].as_bool().unwrap_or(false));
     let (from, to) = (case["from"].as_u64().unwrap_or(0) as usize, case["to"].as_u64().unwrap_or(0) as usize);
-    let mut w = match WireRt::new() {
-        Ok(w) => w,
-        Err(e) => return CaseResult::machinery(e),
-    };
     crate::common::clock::set_secs(1_700_000_000);
-    let netinfo = w.rt.block_on(erbium_net::netinfo::SharedNetInfo::new());
-    w.pump(4);
     let mut wire = match Wire::open() {
         Ok(x) => x,
         Err(e) => return CaseResult::machinery(e),
     };
     let mut n = 0u64;
     let mut answered = 0u64;
+    let mut n_unsol = 0u64;
     for (ci, (group, c)) in cfgs.iter().enumerate().take(to).skip(from) {
+        // a runtime (and a netlink-fed NetInfo) of its own for every configuration: `run()` spawns
+        // its two loops as detached tasks, which outlive an abort of `run()` itself -- only dropping
+        // the runtime ends them, closes their sockets and keeps one configuration's service from
+        // answering for the next
+        let mut w = match WireRt::new() {
+            Ok(w) => w,
+            Err(e) => return CaseResult::machinery(e),
+        };
+        let netinfo = w.rt.block_on(erbium_net::netinfo::SharedNetInfo::new());
+        w.pump(4);
         // every third configuration also lists, at the top level, the prefix the interface's global
         // address lies in ("simple mode" addresses): the interface's own router-advertisements
         // section must still be what is advertised
@@ -1286,9 +1291,34 @@ pub fn wire_run_case(case: &Value) -> crate::netrun::CaseResult {
                 break;
             }
         }
+        // the periodic (unsolicited) advertisement: the service sleeps a random 200..600 s between
+        // them; after 600 virtual seconds at least one has gone out, to all nodes
+        let mut unsolicited: Vec<(std::net::Ipv6Addr, std::net::Ipv6Addr, u8, Vec<u8>, bool)> = vec![];
+        if got.is_some() && ci % 2 == 0 {
+            wire.poll();
+            let mark2 = wire.rx.len();
+            w.advance(std::time::Duration::from_secs(600));
+            for _ in 0..30 {
+                w.pump(3);
+                wire.poll();
+            }
+            for f in &wire.rx[mark2..] {
+                if let Some((smac, src, dst, hop, icmp, ok)) = as_ra(f) {
+                    if smac == SRV_MAC {
+                        unsolicited.push((src, dst, hop, icmp, ok));
+                    }
+                }
+            }
+            if unsolicited.is_empty() {
+                res.violations.push(mk("no-unsolicited-advertisement", "600 s went by without a periodic router advertisement on an interface that answers solicitations".into()));
+            }
+        }
         h.abort();
         drop(svc);
         w.pump(3);
+        drop(netinfo);
+        drop(w);
+        wire.poll();
         wire.rx.clear();
         let ps = panics::take_all();
         let Some((src, dst, hop, icmp, ck_ok)) = got else {
@@ -1321,14 +1351,29 @@ pub fn wire_run_case(case: &Value) -> crate::netrun::CaseResult {
                 for (oracle, what) in compare(&c2, &ra) {
                     res.violations.push(mk(oracle, what));
                 }
+                // every periodic advertisement says the same, to all nodes, as correctly
+                for (usrc, udst, uhop, uicmp, uok) in &unsolicited {
+                    n_unsol += 1;
+                    let all_nodes: std::net::Ipv6Addr = "ff02::1".parse().unwrap();
+                    if !*uok || *uhop != 255 || *usrc != ll_of(&SRV_MAC) || *udst != all_nodes {
+                        res.violations.push(mk("unsolicited-envelope", format!("periodic advertisement: checksum ok {uok}, hop limit {uhop}, source {usrc}, destination {udst} (must verify, 255, the link-local address, ff02::1)")));
+                    }
+                    match decode_ra(uicmp) {
+                        Err(e) => res.violations.push(mk("rfc-format", format!("RFC decoder rejects the periodic advertisement: {e}"))),
+                        Ok(ura) => {
+                            for (oracle, what) in compare(&c2, &ura) {
+                                res.violations.push(mk(oracle, format!("periodic advertisement: {what}")));
+                            }
+                        }
+                    }
+                }
             }
         }
     }
     drop(wire);
-    drop(w);
     teardown_veth();
     crate::common::clock::unset();
-    res.stats = json!({"wire_configs": n, "wire_advertisements": answered});
+    res.stats = json!({"wire_configs": n, "wire_advertisements": answered, "wire_unsolicited_advertisements": n_unsol});
     res
 }
 
@@ -1402,8 +1447,9 @@ pub fn run(tier: &str, replay: Option<Value>) -> ! {
     let wire_n = agg.stats_sum.get("wire_advertisements").copied().unwrap_or(0.0) as u64;
     rep.cov("wire_configurations_loaded", agg.stats_sum.get("wire_configs").copied().unwrap_or(0.0) as u64);
     rep.cov("wire_advertisements_judged", wire_n);
+    rep.cov("wire_unsolicited_advertisements_judged", agg.stats_sum.get("wire_unsolicited_advertisements").copied().unwrap_or(0.0) as u64);
     rep.cov("wire_address_histories", json!({"histories": agg.stats_sum.get("wire_histories").copied().unwrap_or(0.0) as u64, "advertisements_judged": agg.stats_sum.get("wire_history_advertisements").copied().unwrap_or(0.0) as u64, "rule": "while the real service runs, IPv6 addresses (a second global one, a unique-local one, the first global one) are added to and removed from the advertising interface with `ip addr add/del` -- every applicable sequence of such events up to the depth (quick 2, thorough 4) x 3 configurations ($self6 written in the interface's section; the default dns-servers; no interface section but top-level addresses); before the first and after every event a solicitation is answered: the recursive DNS server advertised for $self6 must be an address the interface has NOW, and the prefixes implied by the top-level addresses must be exactly those the interface has an address in NOW"}));
-    rep.cov("wire_rule", "the real RaAdvService (real netlink-fed NetInfo, real raw ICMPv6 socket) on one end of a veth pair in a private network namespace, one instance per configuration; a router solicitation frame is sent from the other end and the advertisement captured there is decoded by the same RFC decoder and compared with expected(configuration, environment), for three environments: no IPv6 default route, default route out of the advertising interface, default route out of another interface; every third configuration additionally lists the interface's own prefix under the top-level addresses (the explicit section must still win). Also judged: ICMPv6 checksum, IPv6 hop limit 255, link-local source, destination");
+    rep.cov("wire_rule", "the real RaAdvService (real netlink-fed NetInfo, real raw ICMPv6 socket) on one end of a veth pair in a private network namespace, one instance per configuration; a router solicitation frame is sent from the other end and the advertisement captured there is decoded by the same RFC decoder and compared with expected(configuration, environment), for three environments: no IPv6 default route, default route out of the advertising interface, default route out of another interface; every third configuration additionally lists the interface's own prefix under the top-level addresses (the explicit section must still win). Also judged: ICMPv6 checksum, IPv6 hop limit 255, link-local source, destination. For every second configuration the paused clock is then advanced by 600 s and the periodic (unsolicited) advertisements that go out are captured and judged the same way (destination ff02::1)");
     rep.cov("evaluations", cfgs.len() as u64 + wire_n);
     rep.cov("distinct_nontrivial", distinct_yaml.len() as u64);
     rep.cov("rule", "interface configurations from the grammar (full product inside each group: header, timers, mtu x interface-mtu x lladdr, prefix lists of length <=2 (thorough <=3) over 7 prefixes, rdnss x lifetime, dnssl x lifetime, pref64 x lifetime, captive portal; every duration spelling of the manual -- each subset of the units d/h/m/s in both orders, with/without a trailing unit-less number, tight and spaced -- as reachable time and router lifetime) x top-level defaults {absent,present} x 3 base contexts {all absent, all present, all null}; the full product of every PAIR of groups (prefix lists cut to length <=1, timers sampled every 5th); thorough also every TRIPLE of the groups with <= 60 entries; distinct = distinct YAML documents that reached the loader");
